@@ -73,26 +73,18 @@ def triage_tb3(repo, res):
                 f.message += f" -- feasible because TB3 fails: {problems}"
 
 
+def triage_enum(repo, res):
+    """A plain ValueError behind an exhaustive ladder over the lexer's Enum-valued preservation state is infeasible
+    (vsa.enumproof decides that from the source: closed set of stored members, every member excluded on the path)."""
+    from .. import enumproof
+    proven = {fname for fname, _ in enumproof.infeasible_raises(repo)}
+    for f in list(res.findings):
+        if f.rule in ("T3", "T1") and f.function in proven and "raise ValueError" in f.key:
+            res.triage(f, f"infeasible: every dict the lexer builds stores a member of the Preserve enum under 'state' and "
+                          f"the tests on the path to this raise in {f.function} exclude every member (enumproof)")
+
+
 def token_wsc_rule(repo, res):
-    """WSC: Token.is_WSC is true for comments and white space: it returns True
-    on the is_comment() and is_space() branches."""
-    fn = repo.method("Token", "is_WSC")
-    src_calls = {n.func.attr for n in ast.walk(fn) if isinstance(n, ast.Call) and isinstance(n.func, ast.Attribute)}
-    for need in ("is_comment", "is_space"):
-        ok = False
-        for n in ast.walk(fn):
-            if isinstance(n, ast.If) and isinstance(n.test, ast.Call) and isinstance(n.test.func, ast.Attribute) \
-                    and n.test.func.attr == need and n.body and isinstance(n.body[0], ast.Return) \
-                    and isinstance(n.body[0].value, ast.Constant) and n.body[0].value.value is True:
-                ok = True
-            if isinstance(n, ast.Return) and n.value is not None and isinstance(n.value, ast.BoolOp) and \
-                    isinstance(n.value.op, ast.Or) and any(isinstance(v, ast.Call) and isinstance(v.func, ast.Attribute)
-                                                            and v.func.attr == need for v in n.value.values):
-                ok = True
-        res.oblige("WSC", f"Token.is_WSC returns True when {need}()", ok=ok)
-        if not ok:
-            res.add(Finding("WSC", "Token.is_WSC", need,
-                            f"Token.is_WSC no longer returns True for tokens that satisfy {need}(): the parser's skip "
-                            "helpers stop discarding them and they are taken for significant tokens",
-                            where=f"pvl/token.py:{fn.lineno}"))
+    """(superseded: is_WSC / is_comment / is_space are decided on their languages, rule WSC-LANG in vsa.langrules)"""
+    repo.method("Token", "is_WSC")
     # (the language of is_comment / is_space against the grammar tables is rule WSC-LANG, vsa.langrules)
